@@ -6,7 +6,7 @@ only = sys.argv[sys.argv.index("--only") + 1] if "--only" in sys.argv else None
 rows = []
 def run(patch, checks, reverse=False):
     cmd = [os.path.join(HERE, "tools", "eval_patch.sh")] + (["-R"] if reverse else []) + [patch] + checks
-    p = subprocess.run(cmd, stdout=subprocess.PIPE, stderr=subprocess.STDOUT, text=True, timeout=3600)
+    p = subprocess.run(cmd, stdout=subprocess.PIPE, stderr=subprocess.STDOUT, text=True, errors="replace", timeout=3600)
     return p.stdout.strip().splitlines()
 entries = []
 for meta in sorted(glob.glob(os.path.join(HERE, "seeded", "*", "meta.json"))):
